@@ -197,8 +197,8 @@ func baseStrats(ctx *run.Ctx, nrand int) []namedStrat {
 				mk = func() strategy.Strategy {
 					d := row.New(row.Default)
 					if used {
-						// ... after the instance has already served a (short) series
-						helper.Drain(d.Compute(helper.SliceToChan(reg.Snaps(gen.Bars(gen.New(1, "warm"), gen.Walk, 7)))))
+						// ... after the instance has already served another series (long enough to get past most warm-ups)
+						helper.Drain(d.Compute(helper.SliceToChan(reg.Snaps(gen.Bars(gen.New(1, "warm"), gen.Walk, 90)))))
 					}
 					if used && !strings.HasSuffix(ctx.Prop, "R") {
 						// (not in the race phases: the detector has no happens-before edge
